@@ -71,8 +71,9 @@ Proof. exact (forest_wellformed xml_text_tbl xml_attr_tbl C18_table_ok). Qed.
 (* C18_html_wellformed: for EVERY value of the modelled type hval (scalars, floats, numbered lists, tables with
    the maxListSize cut-off, plainList, maps, Format with string / css-map styles inline or as classes, Cell,
    ColSpan, Link, http/https/host strings, File values, table formats rNcM / rN / cN / all with constant
-   styles, identity and failing closures, Format with a failing closure style or with a succeeding closure
-   style whose result is any value of the type) with legal XML characters: either ToHtml answers
+   styles, identity and failing closures and closures that succeed with any value of the type (HCell), Format
+   with a failing closure style or with a succeeding closure style whose result is any value of the type, nil,
+   lists whose iteration fails at some position (HErr)) with legal XML characters: either ToHtml answers
    an error, or the calls it issues are balanced (exactly those of a forest f), every element and attribute
    name of f is one of ToHtml's constants, attribute names are unique, and the writer runs to the end *)
 Theorem C18_html_wellformed : forall (maxl : N) (inline : bool) (v : hval), legal_h v = true ->
@@ -104,6 +105,42 @@ Theorem C18_html_no_injection_partial : forall (maxl : N) (inline : bool) (v : h
   end.
 Proof. exact (html_no_injection_partial xml_text_tbl xml_attr_tbl C18_table_ok). Qed.
 
+(* C18_html_no_injection_unmixed: the exact side condition, stated on the forest of the calls instead of on the
+   value.  For EVERY legal value - plainList styles included - whose rendering succeeds: if the forest f of the calls
+   is unmixed (no element of f, and not the top level, has both character data and element children), then the
+   markup parses back to exactly f.  pfree is one way to guarantee it (C18_html_no_injection_partial is the
+   corollary); a plainList whose elements all render as elements (tables, maps, links, files, styled or link
+   strings) or all as character data is another (Example C18_plainlist_unmixed).  What really fails is mixed
+   content under PrettyPrint: C18_html_no_injection_refuted. *)
+Theorem C18_html_no_injection_unmixed : forall (maxl : N) (inline : bool) (v : hval),
+  legal_h v = true ->
+  match to_html (eff_max maxl) inline v SNone [] with
+  | None => to_html_doc xml_text_tbl xml_attr_tbl maxl inline v = HError
+  | Some (ops, cls) =>
+      exists f out, ops = flat_map ops_of f /\ forallb hnames f = true /\
+        to_html_doc xml_text_tbl xml_attr_tbl maxl inline v = HOk out cls /\
+        (unmixed_forest f = true ->
+         xml_fragment out = Some (canon_forest f) /\ forallb hnames (canon_forest f) = true)
+  end.
+Proof. exact (html_no_injection_unmixed xml_text_tbl xml_attr_tbl C18_table_ok). Qed.
+
+(* non-vacuity: a plainList (not pfree) of a link, a table with markup characters and a styled string: the forest
+   of the calls is unmixed, and the markup parses back to it *)
+Example C18_plainlist_unmixed :
+  let v := HFmt false 0 (SStr s_plainList)
+             (HL [HLnk [108; 34] (HS [98; 60]); HL [HS [60; 38]; HNil]; HFmt false 0 (SStr [99; 62]) (HS [39])]) in
+  legal_h v = true /\ pfree v = false /\
+  match to_html (eff_max 3) true v SNone [], to_html_doc xml_text_tbl xml_attr_tbl 3 true v with
+  | Some (ops, _), HOk out _ =>
+      match tree_of ops with
+      | Some f => unmixed_forest f &&
+                  match xml_fragment out with Some g => forest_eqb g (canon_forest f) | None => false end
+      | None => false
+      end
+  | _, _ => false
+  end = true.
+Proof. vm_compute. repeat split; reflexivity. Qed.
+
 (* the mixed-content counterexample for the real configuration, by computation *)
 Theorem C18_html_no_injection_refuted : exists v : hval, legal_h v = true /\
         match to_html_doc xml_text_tbl xml_attr_tbl 3 true v, to_html (eff_max 3) true v SNone [] with
@@ -120,8 +157,10 @@ Qed.
 
 (* tohtml_errors_not_panics: a failing (or panicking: recovered) closure style that toHtml reaches inside the
    maxListSize cut-offs (relation fails, coq/Exp/Html.v: through Format, Link, map values, list elements, table
-   cells with or without a table format, results of succeeding closures) makes ToHtml answer an error - never a
-   document cut off at that element.  Together with C18_html_wellformed: the only outcomes are an error without
+   cells with or without a table format, results of succeeding closures - of Format styles and of table formats),
+   or a position at which the iteration of a list fails (HErr) that the loop reaches - up to and including the
+   first element past the cut-off, in a numbered list, the rows of a table, the cells of a row, a plainList -
+   makes ToHtml answer an error - never a document cut off at that element.  Together with C18_html_wellformed: the only outcomes are an error without
    markup or complete balanced markup; the writer never panics *)
 Theorem C18_tohtml_errors : forall (maxl : N) (inline : bool) (v : hval),
   fails (eff_max maxl) v SNone -> to_html_doc xml_text_tbl xml_attr_tbl maxl inline v = HError.
@@ -137,6 +176,31 @@ Proof.
   cbn zeta. split; [|split; vm_compute; [reflexivity|exact I]].
   eapply (F_list _ _ (HS [97]) 1%nat); try reflexivity.
   apply T_list; [reflexivity|apply F_here].
+Qed.
+
+(* non-vacuity for the new shapes: the iteration fails at the first element past the cut-off (error; one
+   position later: no error), in a cell of a row, a table-format closure whose recorded result fails in its
+   cell; a list whose first element is nil is rendered as nothing, whatever follows *)
+Example C18_errors_iter_nonvacuous :
+  let tf := STab [] [([97; 108; 108], SCloRes)] in
+  let bad := HFmt false 0 SCloErr (HL [HS [118]]) in
+  fails (eff_max 2) (HL [HS [97]; HS [98]; HErr]) SNone /\
+  to_html_doc xml_text_tbl xml_attr_tbl 2 true (HL [HS [97]; HS [98]; HErr]) = HError /\
+  match to_html_doc xml_text_tbl xml_attr_tbl 2 true (HL [HS [97]; HS [98]; HS [99]; HErr]) with HOk _ _ => True | _ => False end /\
+  fails (eff_max 2) (HL [HL [HS [97]]; HL [HS [98]; HS [99]; HErr]]) SNone /\
+  fails (eff_max 2) (HL [HL [HS [97]; HCell bad (HS [98])]]) tf /\
+  to_html_doc xml_text_tbl xml_attr_tbl 2 true (HFmt false 0 tf (HL [HL [HS [97]; HCell bad (HS [98])]])) = HError /\
+  to_html_doc xml_text_tbl xml_attr_tbl 2 true (HL [HNil; bad; HErr]) = HOk [] [].
+Proof.
+  cbn zeta. split; [|split; [|split; [|split; [|split; [|split]]]]].
+  - eapply (F_list_iter _ _ (HS [97]) 2%nat); try reflexivity; try (vm_compute; discriminate).
+  - vm_compute. reflexivity.
+  - vm_compute. exact I.
+  - eapply (F_cell_iter _ _ (HL [HS [97]]) 1%nat _ 2%nat); try reflexivity; try (vm_compute; discriminate).
+  - eapply (F_cell_res _ _ (HL [HS [97]; HCell (HFmt false 0 SCloErr (HL [HS [118]])) (HS [98])]) 0%nat _ 1%nat); try reflexivity.
+    apply T_list; [reflexivity|apply F_here].
+  - vm_compute. reflexivity.
+  - vm_compute. reflexivity.
 Qed.
 
 (* non-vacuity: a nested value with hostile keys and strings; the former failing inputs *)
@@ -156,8 +220,8 @@ Proof. vm_compute. split; reflexivity. Qed.
    everything else an identity closure), a File, a succeeding closure style whose result is a list with markup
    characters; the markup parses back and all names are ToHtml's constants *)
 Example C18_html_nonvacuous :
-  let tf := STab [([99], [60])] [([114; 49; 99; 49], SStr [34; 62; 60]); ([114; 50], SStr [120]); ([97; 108; 108], SCloId)] in
-  let v := HFmt false 0 tf (HL [HL [HS [60; 97]; HFile [110; 34] [] [81; 81; 61; 61] [49; 32; 66]];
+  let tf := STab [([99], [60])] [([114; 49; 99; 49], SStr [34; 62; 60]); ([114; 50], SStr [120]); ([99; 50], SCloRes); ([97; 108; 108], SCloId)] in
+  let v := HFmt false 0 tf (HL [HL [HS [60; 97]; HCell (HM [([118; 60], HNil)]) (HFile [110; 34] [] [81; 81; 61; 61] [49; 32; 66])];
                                 HL [HFmtClo false 0 (HL [HS [38]; HS [39]]) (HS [120]); HS [98]]]) in
   legal_h v = true /\ pfree v = true /\
   match to_html_doc xml_text_tbl xml_attr_tbl 3 true v with
@@ -176,5 +240,6 @@ Print Assumptions C18_writer_total.
 Print Assumptions C18_forest_wellformed.
 Print Assumptions C18_html_wellformed.
 Print Assumptions C18_html_no_injection_partial.
+Print Assumptions C18_html_no_injection_unmixed.
 Print Assumptions C18_html_no_injection_refuted.
 Print Assumptions C18_tohtml_errors.
